@@ -134,14 +134,14 @@ pub fn generate(out: &mut Out, prop: &str, thorough: bool, seed: u64) {
             universal::gen_stream_histories(out, &mut rng, n);
             out.monitored = false;
         }
-        "C04" | "C05" | "C11" | "C08" => {
+        "C04" | "C05" | "C11" | "C08" | "C19" => {
             universal::gen_stream_histories(out, &mut rng, 2 * n);
             // what the codecs do shows in whole calls, too: state kept between calls (a buffer
             // that is not empty at encode time, a decoder that remembers a length)
             out.metamorphic = true;
             universal::gen_cli_histories(out, &mut rng, n / 2);
             out.metamorphic = false;
-            if prop == "C08" {
+            if prop == "C08" || prop == "C19" {
                 out.metamorphic = true;
                 universal::gen_srv_histories(out, &mut rng, n / 2);
                 out.metamorphic = false;
@@ -158,6 +158,7 @@ fn prop_salt(prop: &str) -> u64 {
 /// Run one case and judge it with the monitors of `out.prop`.
 pub fn monitor_line(out: &mut Out, line: &str) {
     let (l, r) = out.case(line);
+    out.orig = line.to_string();
     // a monitor that cannot cope with a case is a gap of the machinery, not a property violation:
     // the case stays unjudged by it (the correspondence still compares it) and is counted
     let judged = std::panic::catch_unwind(std::panic::AssertUnwindSafe(|| judge(out, &l, &r)));
